@@ -267,7 +267,7 @@ impl Sut for SyncSut {
                 if spins > 50_000_000 {
                     panic!("HARNESS wait(): helper neither queued nor returned");
                 }
-                std::hint::spin_loop();
+                std::thread::yield_now();
             }
             let mut idle = 0u64;
             while !h.is_finished() {
@@ -278,10 +278,10 @@ impl Sut for SyncSut {
                     }
                     None => {
                         idle += 1;
-                        if idle > 200_000_000 {
+                        if idle > 20_000_000 {
                             panic!("HANG wait(): buffer empty, waiter still blocked");
                         }
-                        std::hint::spin_loop();
+                        std::thread::yield_now();
                     }
                 }
             }
